@@ -373,6 +373,34 @@ theorem C06.elide_second_amount_sound (L : Layout) (hL : L.elideChecksMustBalanc
   simp only [hps, hL, Bool.not_true, Bool.false_or, Bool.and_eq_true, decide_eq_true_eq] at he
   exact he.2
 
+/-! ### the three repaired statements of print.cc are in the source
+
+`tools/extract_print.py` recognises, in the working tree, which of two forms three statements of
+print.cc have.  They were repaired (f798b3e, bf17db1, affa0b1); these obligations break as soon as
+any of them regresses to the defective form, and the full statements below are then no longer
+available for `C06.sourceLayout`. -/
+
+/-- format_account_name writes a posting's state mark whenever it differs from the transaction's. -/
+theorem C06.source_marks_when_state_differs : Gen.printMarkWhenStateDiffers = true := by decide
+
+/-- print_xact elides the second amount only when both postings must balance. -/
+theorem C06.source_elision_checks_must_balance : Gen.printElideChecksMustBalance = true := by decide
+
+/-- print_xact writes the padding blanks only in front of an amount. -/
+theorem C06.source_pads_only_with_amount : Gen.printPadsOnlyWithAmount = true := by decide
+
+/-- hence, for what `ledger print` of the current source does: every posting keeps its state, -/
+theorem C06.state_marks_source : C06.StateMarksFull C06.sourceLayout :=
+  C06.state_marks _ C06.source_marks_when_state_differs
+
+/-- an elided second amount is always re-inferred exactly, -/
+theorem C06.elide_second_amount_sound_source : C06.ElideSecondFull C06.sourceLayout :=
+  C06.elide_second_amount_sound _ C06.source_elision_checks_must_balance
+
+/-- and printing the re-read transaction reproduces the text byte for byte. -/
+theorem C06.render_fixpoint_source : C06.RenderFixpointFull C06.sourceLayout :=
+  C06.render_fixpoint _ C06.source_pads_only_with_amount
+
 /-! ### equity -/
 
 /-- posts_as_equity: the Opening Balances transaction carries, for every account other than
